@@ -201,7 +201,8 @@ PROPS["C05"] = dict(
 MANIFEST_TEXT["C05"] = dict(
     text="Generated key-specification sets built for collisions are defined in all (small sets) or several (larger sets) orders; which "
          "specification is refused and which destination receives the value for every exact key and every prefix must match a "
-         "set-theoretic key model and must not depend on the definition order (metamorphic). " + EXPL,
+         "set-theoretic key model and must not depend on the definition order (metamorphic); in a second mode part of the specifications are "
+         "sub-group arguments of the same handler (one key space). " + EXPL,
     design_ref="DESIGN.md section 4/C05",
     note="Trusts the 40-line key model in harness/keys.cpp, which never looks at ArgumentKey; each lookup runs on a fresh handler.",
     technique="property-based testing (rapidcheck) + exhaustive permutation of definition orders: reference key model + order-invariance, under ASan/UBSan")
